@@ -16,6 +16,8 @@ CONSTANTS
     MaxSpans = 3
     IncomingKinds <- MC_IncAll
     WithLazy = FALSE
+    WithCancel = FALSE
+    CancelOwnIds = FALSE
     CtxForms <- MC_Forms
     Emit = TRUE
 VIEW sview
